@@ -1,5 +1,5 @@
+import Typegen.Basic
 namespace H
-abbrev Str := List Char
 
 /-! ## serde-rename-rule `apply_to_field` (PascalCase / CamelCase), ASCII -/
 def upc (c : Char) : Char := if 'a' ≤ c ∧ c ≤ 'z' then Char.ofNat (c.toNat - 32) else c
